@@ -12,6 +12,7 @@ import (
 	"strings"
 
 	"github.com/elnosh/gonuts/cashu"
+	"github.com/elnosh/gonuts/cashu/nuts/nut04"
 	"github.com/elnosh/gonuts/cashu/nuts/nut10"
 	"github.com/elnosh/gonuts/mint"
 	"github.com/elnosh/gonuts/wallet"
@@ -92,6 +93,7 @@ type World struct {
 	OnTokens func(ps cashu.Proofs)
 	rotations    map[string]int
 	logPos       int
+	giver        *world.User
 }
 
 func URL(mintName string) string { return "http://mint-" + mintName }
@@ -289,6 +291,33 @@ func (w *World) Exec(op string) error {
 		w.R.Cur = ww.Name
 	}
 	switch f[0] {
+	case "give": // constructed content: the harness client mints proofs of these denominations and stores them in the wallet
+		m := w.Mints[ww.Default]
+		if w.giver == nil {
+			w.giver = &world.User{Tag: "giver"}
+		}
+		var ps cashu.Proofs
+		for _, ds := range strings.Split(arg(2), ",") {
+			d := uint64(atoi(ds))
+			q, err := m.MintQuote(d, "")
+			if err != nil {
+				return err
+			}
+			w.LN.Settle(q.PaymentHash)
+			outs := w.giver.Outputs(m.ActiveID(), d)
+			sigs, err := m.M.MintTokens(nut04.PostMintBolt11Request{Quote: q.Id, Outputs: world.Msgs(outs)})
+			if err != nil {
+				return err
+			}
+			pr, err := world.Unblind(sigs, outs, m.Keys(m.ActiveID()))
+			if err != nil {
+				return err
+			}
+			ps = append(ps, pr...)
+		}
+		if err := ww.DB.Inner.SaveProofs(ps); err != nil {
+			return err
+		}
 	case "mint":
 		amount := uint64(atoi(arg(2)))
 		var err error
